@@ -1,7 +1,7 @@
 (* Dispatcher entries for events, table maps, rows and the streamer (glue). *)
 From Coq Require Import String.
 From GB Require Import Base.Prelude Base.DecText Base.Sexp.
-From GB Require Import Model.Header Model.Events Model.Cell Model.Rbr Model.Streamer Model.DispatchCell.
+From GB Require Import Model.Header Model.Events Model.Cell Model.Rbr Model.Streamer Model.Handshake Model.DispatchCell.
 Open Scope string_scope.
 Open Scope list_scope.
 Open Scope Z_scope.
@@ -145,6 +145,24 @@ Definition dispatch_stream (jsonp : bytes -> res bytes) (op : bytes) (args : lis
       match as_hex d, as_nat p, as_int t with
       | Some d, Some p, Some t => Some (vres (fun r => [vint (fst r); vnat (snd r)]) (metadata_read d p t))
       | _, _, _ => bad "args"
+      end
+    | _ => bad "arity"
+    end
+  else if op_is op "handshake" then
+    (* (handshake sid (file off) ok|rejected|lost) -> ((request ...) failed position_kept) *)
+    match args with
+    | [sid; L [pf; po]; r] =>
+      match as_int sid, as_hex pf, as_int po,
+            (if is_sym "ok" r then Some SetOk else if is_sym "rejected" r then Some SetRejected
+             else if is_sym "lost" r then Some SetLost else None) with
+      | Some sid, Some pf, Some po, Some r =>
+        let h := stream_handshake sid {| p_file := pf; p_off := po |} r in
+        Some (L [L (map (fun q => match q with
+                                  | RQuery s => L [vsym "query"; vhex s]
+                                  | RDump o f sd fl => L [vsym "dump"; vint o; vint f; vint sd; vhex fl]
+                                  end) (hs_requests h));
+                 vbool (hs_failed h); vbool (hs_position_kept h)])
+      | _, _, _, _ => bad "args"
       end
     | _ => bad "arity"
     end
